@@ -555,11 +555,7 @@ func (e *vfFREnv) queryAllPeers(queryMsg wire.Message,
 			stale, _ = strconv.Atoi(rel.err.Error())
 		}
 		e.add(vfCFAct{Op: "GetCheckpts", Res: res, Rs: rs, P: stale, Hi: e.w.modelCeil(int(e.lastH))}, e.obsNow())
-		if len(rs) == 0 {
-			e.fpc = "retry"
-		} else {
-			e.fpc = "resolve"
-		}
+		e.fpc = "resolve"
 	case "cfh":
 		e.pend = &vfFRPend{act: vfCFAct{Op: up + "Cfh", Rs: rs, Lo: e.callLo, Hi: e.callHi}, fn: fn}
 		e.uReread = false
@@ -780,8 +776,15 @@ func (e *vfFREnv) deliver(rng *rand.Rand) {
 // only be in a retry sleep, on a condition variable or in the select of the
 // batched fetch.
 func (e *vfFREnv) settle() {
-	if e.pend == nil && e.gate == nil && !e.inQuery && e.fpc == "aftercp" {
-		e.fpc = "tip" // on a condition variable (top of the round or at the tip)
+	if e.pend == nil && e.gate == nil && !e.inQuery {
+		switch e.fpc {
+		case "aftercp":
+			e.fpc = "tip" // on a condition variable (top of the round or at the tip)
+		case "resolve":
+			// blocked right after the lists arrived: the retry sleep (no list
+			// at all, or resolveConflict gave up without a single call)
+			e.fpc = "retry"
+		}
 	}
 	if e.pend == nil || e.gate != nil || e.dead {
 		return
@@ -1017,9 +1020,6 @@ func (e *vfFREnv) run(rng *rand.Rand) (string, error) {
 			synctest.Wait()
 			e.mu.Lock()
 			moved := e.nprobe != np || e.gate != nil
-			if moved && e.fpc == "resolve" {
-				e.fpc = "retry" // resolveConflict returned without a single call
-			}
 			e.mu.Unlock()
 			if moved {
 				e.nsleeps++
